@@ -37,7 +37,15 @@ def build_app(tree):
     c.add_option("opt", "o", Option.REQUIRED_VALUE)
     cfgs = {}
     for i, nd in enumerate(tree):
-        cc = CommandConfig(txt(nd["name"]))
+        # equivalent routes to a (sub-)command configuration: add_*_config(CommandConfig), create_*(name), the context manager
+        how = (zlib.crc32(key.encode()) // 7 + i) % 3
+        parent = c if nd["parent"] == 0 else cfgs[nd["parent"]]
+        if how == 0:
+            cc = CommandConfig(txt(nd["name"]))
+        elif nd["parent"] == 0:
+            cc = c.create_command(txt(nd["name"])) if how == 1 else c.command(txt(nd["name"])).__enter__()
+        else:
+            cc = parent.create_sub_command(txt(nd["name"])) if how == 1 else parent.sub_command(txt(nd["name"])).__enter__()
         for a in nd["aliases"]:
             cc.add_alias(txt(a))
         # the same kind is reached through different sequences of the configuration calls (the flags are a little
@@ -69,10 +77,11 @@ def build_app(tree):
         else:
             cc.enable_lenient_args_parsing()
         cfgs[i + 1] = cc
-        if nd["parent"] == 0:
-            c.add_command_config(cc)
-        else:
-            cfgs[nd["parent"]].add_sub_command_config(cc)
+        if how == 0:
+            if nd["parent"] == 0:
+                c.add_command_config(cc)
+            else:
+                parent.add_sub_command_config(cc)
     app = ConsoleApplication(c)
     cmds = {}
 
@@ -292,7 +301,7 @@ def rand_line(rng, tree):
         else:
             line.append(rng.choice(words))
     for _ in range(rng.randint(0, 2)):
-        line.append(rng.choice(words + [list("-g"), list("--glob"), list("--opt=v"), list("-ov")]))
+        line.append(rng.choice(words + [list("-g"), list("--glob"), list("--opt=v"), list("-ov"), []]))   # [] = an empty token
     if rng.random() < 0.3:
         line.append(list("--"))
         for _ in range(rng.randint(0, 2)):
